@@ -59,17 +59,20 @@ def create(spec: dict):
     Shuffles.A = spec.get('shufA', 1)
     Shuffles.B = spec.get('shufB', 0)
     autos = tuple(a for a in ALL_AUTOS if a.value in spec['autos'])
-    if spec.get('chips') == 'fraction':
-        # the same amounts as Fraction objects: the engine then divides pots exactly instead of in whole chips
-        from fractions import Fraction
+    if spec.get('chips') in ('fraction', 'float', 'decimal'):
+        # the same amounts as Fraction / float / Decimal objects: the engine then divides pots with `/` instead of in whole chips
+        # (exact for Fraction; exact for float and Decimal as long as every divisor met is a power of two - a hand in which a pot
+        # is divided by 3, 5 or 7 leaves the logging grid and is left out by the driver, see pk.OffGrid)
         pk.Units.den = pk.Units.FINE
+        pk.Units.kind = spec['chips']
+        conv = pk.Units.conv
         spec = dict(spec)
         for k in ('antes', 'blinds', 'stacks'):
-            spec[k] = [Fraction(x) for x in spec[k]]
+            spec[k] = [conv(x) for x in spec[k]]
         for k in ('bringin', 'sb', 'bb'):
-            spec[k] = Fraction(spec[k])
+            spec[k] = conv(spec[k])
         if 'streets' in spec:
-            spec['streets'] = [dict(s, minbet=Fraction(s['minbet'])) for s in spec['streets']]
+            spec['streets'] = [dict(s, minbet=conv(s['minbet'])) for s in spec['streets']]
     else:
         pk.Units.den = 1
     mode = Mode.TOURNAMENT if spec['mode'] == 'T' else Mode.CASH_GAME
